@@ -547,7 +547,33 @@ func endToEnd(maps []map[string]string, streaming []bool) string {
 	return ""
 }
 
+// contextOwnsMetadata: attaching a map to a context copies it (`addPairs` of the model builds a new
+// list): editing the caller's map afterwards, or adding to a second context built from the same
+// map, must not change what the first context carries.
+func contextOwnsMetadata(o *corr.Out) {
+	for i := 0; i < 40; i++ {
+		m := randMap(o, 1+o.Rand.Intn(4), false)
+		want := canonMap(m)
+		c1 := drpcmetadata.AddPairs(context.Background(), m)
+		c2 := drpcmetadata.Add(drpcmetadata.AddPairs(context.Background(), m), "role", "admin")
+		m["late"] = "edit"
+		got1, _ := drpcmetadata.Get(c1)
+		got2, _ := drpcmetadata.Get(c2)
+		desc := "addpairs m=" + want
+		switch {
+		case canonMap(got1) != want:
+			o.Oracle("context-owns-its-metadata", desc, "the first context now carries "+canonMap(got1))
+		case got2["role"] != "admin" || len(got2) != len(got1)+1:
+			o.Oracle("context-owns-its-metadata", desc, "the second context carries "+canonMap(got2))
+		default:
+			o.OracleOK("context-owns-its-metadata")
+		}
+		delete(m, "late")
+	}
+}
+
 func runEndToEnd(o *corr.Out) {
+	contextOwnsMetadata(o)
 	// Observation (recorded in the evidence, not a violation of C11): drpcmetadata.Add writes into the
 	// map of the parent context when there is one, so contexts derived from one another share a map.
 	// Every call context here is therefore built from a fresh root.
